@@ -28,7 +28,14 @@ import (
 // Rand is a splitmix64 stream.
 type Rand struct{ s uint64 }
 
-func NewRand(seed uint64) *Rand { return &Rand{s: seed*0x9e3779b97f4a7c15 + 0x1234567} }
+func NewRand(seed uint64) *Rand {
+	// the seed is hashed (one splitmix64 finaliser round over a seed-dependent state), so that
+	// consecutive seeds give unrelated streams rather than shifted copies of one walk
+	z := (seed + 0x1234567) * 0xd1342543de82ef95
+	z = (z ^ (z >> 30)) * 0xbf58476d1ce4e5b9
+	z = (z ^ (z >> 27)) * 0x94d049bb133111eb
+	return &Rand{s: z ^ (z >> 31)}
+}
 
 func (r *Rand) U64() uint64 {
 	r.s += 0x9e3779b97f4a7c15
